@@ -126,6 +126,12 @@ class RowOp:
             and all(row_new[i] == row_old[i] for i in range(s.player_count) if i != player_index))
 
 
+class QueueOp:
+    @P('C08', 'the named player is the one who leaves the showdown queue; everybody else keeps his place')
+    def at_update_named_player_leaves_the_queue(old, s, op):
+        return old.street_index is None or tuple(s.showdown_indices) == tuple(i for i in old.showdown_indices if i != op.player_index)
+
+
 CONTRACTS = {}
 for _op, _verify, _can, _args, _update in TRIPLES:
     _argd = dict(_args)
@@ -138,6 +144,9 @@ for _op, _verify, _can, _args, _update in TRIPLES:
     _extra = {}
     if 'player_index' in _argd:
         _bases = (OpBase, IndexedOp)
+    if _op == 'show_or_muck_hole_cards':
+        _bases = _bases + (QueueOp,)
+        _extra = {'at_call': {'pokerkit.state.State.' + _update: ['at_update_named_player_leaves_the_queue']}}
     if _op in ROW:
         _bases = _bases + (RowOp,)
         _extra = {'row': ROW[_op], 'at_call': {'pokerkit.state.State.' + _update: ['at_update_row_of_named_player']}}
